@@ -131,7 +131,7 @@ func checkC15(tier, replay string) int {
 		ctx.Sample("seccomp unavailable")
 		return ctx.Finish()
 	}
-	scratch, _ := os.MkdirTemp("", "c15")
+	scratch, _ := os.MkdirTemp("", "c15") // under the system temp directory: must be reachable by uid 65534
 	defer os.RemoveAll(scratch)
 	os.Chmod(scratch, 0o755)
 	sandbox, err := buildTool(scratch, "sandbox", "github.com/elastic/go-seccomp-bpf/cmd/sandbox")
